@@ -18,6 +18,14 @@ CHECK = Check(
         "`checkCatalog specs descs = true` is evaluated by the Lean kernel (`decide +kernel`, axioms: propext) and "
         "OW.Spec.Catalog.checkCatalog_sound turns it into `∀ s ∈ specs, ∃ d ∈ descs, Agrees s d`; spec ranges with an open end "
         "are exempt there (known findings catalog:<Model>.<param>:half-open-range, reported by the oracle channel)",
+        "the JSON→Lean RENDERER vlib/c09.py (lean_catalog_source / _lmodel / _lpar / _lstr, written out by "
+        "write_lean_catalog): it turns the two JSON dumps (owextract's spec dump; `owharness catalog`) into the Lean terms "
+        "`specs` / `descs` of OW/Gen/Catalog.lean — string escaping, field order (name, type, pkg, params, inputs, states, "
+        "outputs), float64 values as bit patterns, spec `pkg` = module path + directory. The Lean theorems speak about these "
+        "rendered terms; that they denote the dumps is trusted (the same dumps are compared field by field in Python by "
+        "catalog_step, independently of the renderer, and the data counts are restated in the generated file)",
+        "backward direction (OW.Props.C09.catalogue_only_specs, catalogue_names_eq_spec_names): every key of sim.Catalog is "
+        "the name of a spec block — evaluated by the kernel (`decide +kernel`) on the same regenerated data",
         "free text (description, units) of parameters is not compared; a missing default means 0, a missing range [0,0]",
     ],
     assumptions=[
@@ -38,7 +46,8 @@ META = dict(
          "produces and specs without wrapper, and compares an independent reading of every OW-SPEC block with the "
          "real sim.Catalog / Description() (registration under the spec's name, type, package, parameter order, "
          "defaults, ranges, dimensions, inputs, states, outputs in spec order) — in Python field by field, and once "
-         "more by the Lean kernel on the regenerated data (OW.Props.C09.catalogue_lists_every_spec).",
+         "more by the Lean kernel on the regenerated data (OW.Props.C09.catalogue_lists_every_spec; backward: "
+         "catalogue_only_specs — no catalogue key without a spec).",
     design_ref="DESIGN.md §6 C09",
     note="Finite statement about the present tree: exhaustive over all generated files and all spec blocks, no theorem. "
          "A byte difference is itself the failing input; the replay file carries the unified diff. Known finding: the "
